@@ -232,14 +232,9 @@ func (s *manager) shutdownSession(ctx context.Context, session *sessions.Session
 	for idx := range topics {
 		s.state.Subscriptions().Delete(session.ID(), topics[idx])
 	}
-	metadata, err := s.state.SessionMetadatas().ByClientID(session.ClientID())
-	if err == nil {
-		if metadata.SessionID != session.ID() || session.Disconnected {
-			// Session has reconnected on another peer.
-			return
-		}
-		s.state.SessionMetadatas().Delete(session.ID())
-	}
+	// The record is keyed by session id: deleting it can never touch the record of a session
+	// that reconnected with the same client id, here or on another peer.
+	s.state.SessionMetadatas().Delete(session.ID())
 	if !session.Disconnected {
 		L(ctx).Debug("session lost")
 		if lwt := session.LWT(); lwt != nil {
